@@ -79,6 +79,19 @@ def linform(x):
     return out
 
 
+def _elementwise(o, f):
+    import numpy as _np
+    out = _np.empty(o.shape, dtype=object)
+    for idx in _np.ndindex(o.shape):
+        out[idx] = f(o[idx])
+    return out
+
+
+def _is_arr(o):
+    import numpy as _np
+    return isinstance(o, _np.ndarray)
+
+
 class Ph:
     __array_priority__ = 3000
 
@@ -94,6 +107,10 @@ class Ph:
         return Ph(linform(x))
 
     def __mul__(self, o):
+        if _is_arr(o):
+            return _elementwise(o, lambda v: self * v)
+        if isinstance(o, PhSum):
+            return PhSum.of(self) * o
         if isinstance(o, Ph):
             f = dict(self.form)
             for k, v in o.form.items():
@@ -108,6 +125,13 @@ class Ph:
 
     def inv(self):
         return Ph({k: -v for k, v in self.form.items()})
+
+    def __pow__(self, n):
+        if _is_arr(n):
+            return _elementwise(n, lambda v: self ** v)
+        if int(n) != n:
+            raise Undecided("non-integer power of a phase")
+        return Ph({k: v * int(n) for k, v in self.form.items()})
 
     def __rtruediv__(self, o):
         if isinstance(o, (int, float)) and o == 1:
@@ -138,6 +162,10 @@ class Scaled:
         self.v, self.ph = v, ph
 
     def __mul__(self, o):
+        if _is_arr(o):
+            return _elementwise(o, lambda v: self * v)
+        if isinstance(o, PhSum):
+            return PhSum.of(self) * o
         if isinstance(o, Ph):
             return Scaled(self.v, self.ph * o)
         if isinstance(o, Scaled):
@@ -170,5 +198,176 @@ def exp_scalar(x):
     if isinstance(x, complex):
         if x.real != 0:
             raise Undecided("exp of a complex with real part")
-        return Ph({1: Fraction(repr(x.imag)) / TWO_PI})
+        return Ph({1: _snap(Fraction(repr(x.imag)) / TWO_PI)})
     raise Undecided("exp of %r" % (x,))
+
+
+# ---------------------------------------------------------------------------------------------------------------------
+# sums of  value * phase  (what a Fourier sum produces)
+# ---------------------------------------------------------------------------------------------------------------------
+_UNIT = {Fraction(0): (1, 0), Fraction(1, 4): (0, 1), Fraction(1, 2): (-1, 0), Fraction(3, 4): (0, -1)}
+
+
+def _key_of(ph):
+    """canonical key of a phase and the constant unit (1, i, -1, -i) folded out of it: ph = unit * ph(key)"""
+    c = ph.form.get(1, Fraction(0)) % 1
+    sym = tuple(sorted(((k, v) for k, v in ph.form.items() if k != 1), key=lambda kv: str(kv[0])))
+    q = (c * 4).__floor__()                      # ph(c) = i**q * ph(rest),  0 <= rest < 1/4
+    rest = c - Fraction(q, 4)
+    unit = _UNIT[Fraction(q % 4, 4)]
+    if rest == 0:
+        return sym, unit
+    return sym + (("#", rest),), unit
+
+
+class PhSum:
+    """sum_j  v_j * ph(form_j)  with distinct canonical forms; the characters ph(form) of distinct forms are treated as
+    linearly independent (true for generic values of the symbols; constants that are multiples of 1/4 are folded into the
+    coefficients exactly, other rational constants stay formal -- comparing coefficient-wise is then sufficient for equality,
+    never the other way round: a mismatch is only reported as a violation after a concrete replay reproduces it)"""
+    __array_priority__ = 4000
+    __slots__ = ("t",)
+
+    def __init__(self, t=None):
+        self.t = t or {}
+
+    @staticmethod
+    def of(x):
+        if isinstance(x, PhSum):
+            return x
+        if isinstance(x, Ph):
+            k, (a, b) = _key_of(x)
+            return PhSum({k: SCplx(a, b)})
+        if isinstance(x, Scaled):
+            k, (a, b) = _key_of(x.ph)
+            return PhSum({k: SCplx.of(x.v) * SCplx(a, b)})
+        v = SCplx.of(x)
+        if conc(v.re) == 0 and conc(v.im) == 0:
+            return PhSum({})
+        return PhSum({(): v})
+
+    def _clean(self):
+        self.t = {k: v for k, v in self.t.items() if not (conc(v.re) == 0 and conc(v.im) == 0)}
+        return self
+
+    def __add__(self, o):
+        if _is_arr(o):
+            return _elementwise(o, lambda v: self + v)
+        try:
+            o = PhSum.of(o)
+        except (Undecided, TypeError):
+            return NotImplemented
+        t = dict(self.t)
+        for k, v in o.t.items():
+            t[k] = t[k] + v if k in t else v
+        return PhSum(t)._clean()
+    __radd__ = __add__
+
+    def __neg__(self):
+        return PhSum({k: -v for k, v in self.t.items()})
+
+    def __sub__(self, o):
+        if _is_arr(o):
+            return _elementwise(o, lambda v: self - v)
+        return self + (-PhSum.of(o))
+
+    def __rsub__(self, o):
+        if _is_arr(o):
+            return _elementwise(o, lambda v: v - self)
+        return PhSum.of(o) + (-self)
+
+    def __mul__(self, o):
+        if _is_arr(o):
+            return _elementwise(o, lambda v: self * v)
+        o = PhSum.of(o)
+        t = {}
+        for k1, v1 in self.t.items():
+            for k2, v2 in o.t.items():
+                f = {}
+                for a, b in k1 + k2:
+                    a = 1 if a == "#" else a
+                    f[a] = f.get(a, 0) + b
+                k, (ua, ub) = _key_of(Ph(f))
+                v = v1 * v2
+                if (ua, ub) != (1, 0):
+                    v = v * SCplx(ua, ub)
+                t[k] = t[k] + v if k in t else v
+        return PhSum(t)._clean()
+    __rmul__ = __mul__
+
+    def __truediv__(self, o):
+        if isinstance(o, (Ph, Scaled, PhSum)):
+            if isinstance(o, Ph):
+                return self * o.inv()
+            raise Undecided("division by a phase sum")
+        return PhSum({k: v / o for k, v in self.t.items()})
+
+    def conj(self):
+        out = {}
+        for k, v in self.t.items():
+            kk, (ua, ub) = _key_of(Ph({(1 if a == "#" else a): -b for a, b in k}))
+            out[kk] = v.conj() * SCplx(ua, ub) if (ua, ub) != (1, 0) else v.conj()
+        return PhSum(out)
+    conjugate = conj
+
+    def coef(self, k):
+        return self.t.get(k, SCplx(0, 0))
+
+    def __repr__(self):
+        return "PhSum(%d terms: %s)" % (len(self.t), ", ".join(str(k) for k in list(self.t)[:4]))
+
+
+def _promote_add(cls):
+    def add(self, o):
+        if _is_arr(o):
+            return _elementwise(o, lambda v: PhSum.of(self) + v)
+        try:
+            return PhSum.of(self) + o
+        except (Undecided, TypeError):
+            return NotImplemented
+
+    def sub(self, o):
+        return PhSum.of(self) - o
+
+    def rsub(self, o):
+        return PhSum.of(o) - PhSum.of(self)
+    cls.__add__ = add
+    cls.__radd__ = add
+    cls.__sub__ = sub
+    cls.__rsub__ = rsub
+    cls.__neg__ = lambda self: -PhSum.of(self)
+
+
+_promote_add(Ph)
+_promote_add(Scaled)
+
+
+def phsum_eq(a, b):
+    """SBool: the two phase sums have equal coefficients on every character"""
+    from .core import land
+    a, b = PhSum.of(a), PhSum.of(b)
+    cl = []
+    for k in set(a.t) | set(b.t):
+        x, y = a.coef(k), b.coef(k)
+        cl.append(x.re == y.re)
+        cl.append(x.im == y.im)
+    return land(*cl) if cl else SBool(z3.BoolVal(True))
+
+
+def fourier_spec(X, Rs, k, extra=None):
+    """sum_R X[R] * ph(k . R)  for an integer vector list Rs and a k given as 3 linear forms / numbers"""
+    out = PhSum({})
+    for iR, R in enumerate(Rs):
+        f = {}
+        for j in range(3):
+            r = int(R[j])
+            if r == 0:
+                continue
+            kj = k[j]
+            if isinstance(kj, dict):
+                for a, b in kj.items():
+                    f[a] = f.get(a, 0) + b * r
+            else:
+                f[1] = f.get(1, 0) + Fraction(kj) * r
+        out = out + PhSum.of(Ph(f)) * X[iR]
+    return out
